@@ -13,18 +13,20 @@
   Stage 2  one step.  `setP` / `setT` overwrite the PERT fields / the task states of a live
            state.  Every phase but `pert` and the task sort commutes with `setP` (`*_setP`,
            `upd0_setP`); the allocation pass commutes with any modification it cannot see
-           (`ABlind`, `allocate_blind`), in particular with `setP` and, for task states that are
-           *ahead* only on component-free automatic tasks (`Ahead`), with `setT`
-           (`allocate_over`); `check_state(WORKING)` brings the two task-state vectors together
-           (`cw_sim`, `chkWorking_over`).  `LRel` is the relation on live states,
-           `preLive_working` / `stepLive_working` the working step.
+           (`ABlind`, `allocate_blind`), in particular with `setP` (and with `setT` for task states
+           that are *ahead* only on component-free automatic tasks, `Ahead`, `allocate_over`,
+           `chkWorking_over`: more than is needed now, the task states of the two runs are
+           equal).  `LRel` is the relation on live states, `preLive_working` / `stepLive_working`
+           the working step.
   Stage 4  `Rel` (states at the top of an iteration), `rel_working`, `loop_rel` (the loop, with
            the absence-step lemma `AbsStepOK` as a hypothesis), `enter_rel`,
-           `removal_of_absStep`.
+           `removal_of_absStep`; then the absence step itself, `stepLive_absence`, `upd0_same`,
+           `rel_absence`, and the final `removal`.
 
-  Two groups of lemmas depend on `check_state(WORKING)` running at project absence steps (the
-  behaviour of the present `stepBody`): the section "an absence step of run A" and everything from
-  "The absence step in the current model" on (`rel_absence`, `removal_current`).
+  The absence step (flag off): `stepBody` runs neither `allocate` nor `check_state(WORKING)` nor
+  `perform`, so the live state after it is the updated state with every resource in range set
+  to ABSENCE; the next `__update` finds nothing to do on it (it is a fixpoint of every phase but
+  `pert`, `upd0_same`), and the rows the step appends are the ones `removeLogs` drops.
 -/
 import PDesy.Lemmas.Idem
 import PDesy.Lemmas.Pert
@@ -1192,11 +1194,11 @@ theorem live_ext (a b : Live) (h1 : a.tstate = b.tstate) (h2 : a.rem = b.rem) (h
   cases a; cases b; simp_all
 
 /-- The live state `a` of run A against the live state `b` of run B (both at the `updated`
-boundary): task states ahead; remaining work, allocations, assignments, components and
-placement equal; resource states equal outside the index ranges (inside, the next `absenceSet`
+boundary): task states, remaining work, allocations, assignments, components and placement
+equal; resource states equal outside the index ranges (inside, the next `absenceSet`
 recomputes them).  Nothing is said about the PERT fields. -/
 structure LRel (m : Model) (a b : Live) : Prop where
-  ts : Ahead m a.tstate b.tstate
+  ts : a.tstate = b.tstate
   rem : a.rem = b.rem
   allocW : a.allocW = b.allocW
   allocF : a.allocF = b.allocF
@@ -1207,6 +1209,9 @@ structure LRel (m : Model) (a b : Live) : Prop where
   wpComps : a.wpComps = b.wpComps
   wout : ∀ w, ¬ w < m.nW → a.wstate w = b.wstate w
   fout : ∀ f, ¬ f < m.nF → a.fstate f = b.fstate f
+
+theorem LRel.ahead {m : Model} {a b : Live} (h : LRel m a b) : Ahead m a.tstate b.tstate := by
+  rw [h.ts]; exact Ahead.refl m _
 
 /-- no worker and no facility has an absence list of its own -/
 def NoIndAbs (m : Model) : Prop :=
@@ -1246,14 +1251,18 @@ theorem absenceSet_rel (m : Model) (hab : NoIndAbs m) (a b : Live) (h : LRel m a
   · exact h.placed
   · exact h.wpComps
 
-/-- the live state of one loop iteration at the cost/perform boundary (`l4` in `stepBody`) -/
-def preLive (m : Model) (lg : Logs) (rule : TaskRule) (τ : Nat) (wk : Bool) (l : Live) : Live :=
-  compCheck m (chkWorking m
-    (if wk then allocate m lg rule (absenceSet m τ wk l) else absenceSet m τ wk l))
+/-- the live state of one loop iteration after `allocate` (`l2` in `stepBody`) -/
+def allocLive (m : Model) (lg : Logs) (rule : TaskRule) (τ : Nat) (wk : Bool) (l : Live) : Live :=
+  if wk then allocate m lg rule (absenceSet m τ wk l) else absenceSet m τ wk l
+
+/-- the live state of one loop iteration at the cost/perform boundary (`l4` in `stepBody`);
+`check_state(WORKING)` runs under the guard `wk || af` -/
+def preLive (m : Model) (lg : Logs) (rule : TaskRule) (af : Bool) (τ : Nat) (wk : Bool) (l : Live) : Live :=
+  compCheck m (if wk || af then chkWorking m (allocLive m lg rule τ wk l) else allocLive m lg rule τ wk l)
 
 /-- the live part of one loop iteration -/
 def stepLive (m : Model) (lg : Logs) (rule : TaskRule) (af : Bool) (τ : Nat) (wk : Bool) (l : Live) : Live :=
-  perform m wk af (preLive m lg rule τ wk l)
+  perform m wk af (preLive m lg rule af τ wk l)
 
 theorem stepBody_live_eq (m : Model) (p : Params) (s : St) :
     (stepBody m p s).live =
@@ -1262,176 +1271,48 @@ theorem stepBody_live_eq (m : Model) (p : Params) (s : St) :
 theorem stepBody_logs_eq (m : Model) (p : Params) (s : St) :
     (stepBody m p s).logs =
       addRow m (!(p.absence.contains s.time))
-        (preLive m s.logs p.rule s.time (!(p.absence.contains s.time)) s.live)
+        (preLive m s.logs p.rule p.autoFlag s.time (!(p.absence.contains s.time)) s.live)
         (stepBody m p s).live s.logs := rfl
 
 theorem allocate_tstate (m : Model) (lg : Logs) (rule : TaskRule) (l : Live) :
     (allocate m lg rule l).tstate = l.tstate :=
   congrArg (·.1) (Lifecycle.allocate_tc m lg rule l)
 
-/-- **a working step, live states**: from related states (B's resource holders all WORKING),
-the iteration of run A gives the state the iteration of run B gives, with A's PERT fields
-(which an iteration does not touch) -/
-theorem preLive_working (m : Model) (hab : NoIndAbs m) (hc : CompNoAuto m) (rule : TaskRule)
-    (a b : Live) (lgA lgB : Logs) (τA τB : Nat) (h : LRel m a b) (hw : HoldWorking b)
+/-- **a working step, live states**: from related states the iteration of run A gives the state
+the iteration of run B gives, with A's PERT fields (which an iteration does not touch) -/
+theorem preLive_working (m : Model) (hab : NoIndAbs m) (hc : CompNoAuto m) (rule : TaskRule) (af : Bool)
+    (a b : Live) (lgA lgB : Logs) (τA τB : Nat) (h : LRel m a b)
     (hle : ∀ x y, x < m.nT → y < m.nT → taskLe m (setP a b) lgA rule x y = taskLe m b lgB rule x y) :
-    preLive m lgA rule τA true a = setP a (preLive m lgB rule τB true b) := by
-  unfold preLive
-  simp only [if_true]
+    preLive m lgA rule af τA true a = setP a (preLive m lgB rule af τB true b) := by
+  unfold preLive allocLive
+  simp only [if_true, Bool.true_or]
   rw [absenceSet_rel m hab a b h τA τB,
-    allocate_over m hc lgB lgA rule a a.tstate (absenceSet m τB true b) h.ts hle]
-  rw [chkWorking_over m a a.tstate _ (by rw [allocate_tstate]; exact h.ts)]
+    allocate_over m hc lgB lgA rule a a.tstate (absenceSet m τB true b) h.ahead hle]
+  rw [chkWorking_over m a a.tstate _ (by rw [allocate_tstate]; exact h.ahead)]
   · rfl
   · intro t hne
     rw [allocate_tstate] at hne
-    rcases h.ts t with e | ⟨_, hf, _, e2⟩
-    · exact absurd e hne
-    · have hauto : (m.task t).isAuto = true := by
-        unfold freeAuto at hf; simp only [Bool.and_eq_true] at hf; exact hf.1
-      obtain ⟨e3, e4⟩ := allocate_auto_holds m lgB rule (absenceSet m τB true b) t hauto
-      rw [e3, e4]
-      show b.allocW t = [] ∧ b.allocF t = []
-      have hb : b.tstate t = .ready := e2
-      constructor
-      · apply Classical.byContradiction
-        intro hn
-        have := hw t (Or.inl hn)
-        rw [hb] at this; cases this
-      · apply Classical.byContradiction
-        intro hn
-        have := hw t (Or.inr hn)
-        rw [hb] at this; cases this
+    exact absurd (congrFun h.ts t) hne
 
 theorem stepLive_working (m : Model) (hab : NoIndAbs m) (hc : CompNoAuto m) (rule : TaskRule) (af : Bool)
-    (a b : Live) (lgA lgB : Logs) (τA τB : Nat) (h : LRel m a b) (hw : HoldWorking b)
+    (a b : Live) (lgA lgB : Logs) (τA τB : Nat) (h : LRel m a b)
     (hle : ∀ x y, x < m.nT → y < m.nT → taskLe m (setP a b) lgA rule x y = taskLe m b lgB rule x y) :
     stepLive m lgA rule af τA true a = setP a (stepLive m lgB rule af τB true b) := by
   unfold stepLive
-  rw [preLive_working m hab hc rule a b lgA lgB τA τB h hw hle]
+  rw [preLive_working m hab hc rule af a b lgA lgB τA τB h hle]
   rfl
 
 /-- the `__update` block after a working step -/
 theorem update_rel_setP (m : Model) (q z : Live) (τ τ' : Nat) :
     LRel m (update m τ (setP q z)) (update m τ' z) := by
   rw [update_eq, update_eq, upd0_setP]
-  exact ⟨Ahead.refl m _, rfl, rfl, rfl, rfl, rfl, rfl, rfl, rfl, fun _ _ => rfl, fun _ _ => rfl⟩
+  exact ⟨rfl, rfl, rfl, rfl, rfl, rfl, rfl, rfl, rfl, fun _ _ => rfl, fun _ _ => rfl⟩
 
 /-- the rows of a working step are the same -/
 theorem addRow_setP (m : Model) (wk : Bool) (q l4 l5 : Live) (g : Logs) :
     addRow m wk (setP q l4) (setP q l5) g = addRow m wk l4 l5 g := rfl
 
-/-! ### an absence step of run A (these lemmas depend on `check_state(WORKING)` running at
-project absence steps) -/
-
-/-- the task states after `check_state(WORKING)` at an absence step: every READY component-free
-automatic task has been started -/
-def startAuto (m : Model) (ts : Nat → TS) : Nat → TS :=
-  fun t => if t < m.nT ∧ ts t = .ready ∧ freeAuto m t = true then .working else ts t
-
-/-- automatic tasks have no component -/
-def AutoFree (m : Model) : Prop := ∀ t, t < m.nT → (m.task t).isAuto = true → (m.task t).comp = Option.none
-
-/-- starting a task whose resources (if any) are all ABSENCE, and that holds nothing if it is
-READY, changes nothing but its state -/
-theorem startOne_quiet (m : Model) (l : Live) (t : Nat)
-    (hR : l.tstate t = .ready → l.allocW t = [] ∧ l.allocF t = [])
-    (hWa : ∀ w ∈ l.allocW t, l.wstate w = .absence) (hFa : ∀ f ∈ l.allocF t, l.fstate f = .absence) :
-    startOne m l t = setT (if l.tstate t = .ready then upd l.tstate t .working else l.tstate) l := by
-  by_cases h1 : l.tstate t = .ready
-  · rw [if_pos h1]
-    exact startOne_empty m l t h1 (hR h1).1 (hR h1).2
-  · rw [if_neg h1, Alloc.startOne_eq, if_neg h1]
-    split
-    · apply live_ext <;> try rfl
-      · funext w
-        show (if w ∈ l.allocW t ∧ l.wstate w = .free then RS.working else l.wstate w) = l.wstate w
-        split
-        · rename_i hh
-          have := hWa w hh.1
-          rw [this] at hh; cases hh.2
-        · rfl
-      · funext f
-        show (if (m.task t).needFac = true ∧ l.allocW t ≠ [] ∧ f ∈ l.allocF t ∧ l.fstate f = .free
-          then RS.working else l.fstate f) = l.fstate f
-        split
-        · rename_i hh
-          have := hFa f hh.2.2.1
-          rw [this] at hh; cases hh.2.2.2
-        · rfl
-    · rfl
-
-/-- the fold of `check_state(WORKING)` over any list of tasks changes only task states, on a
-state whose allocated resources are all ABSENCE and whose READY tasks hold nothing -/
-theorem foldl_startOne_quiet (m : Model) (x : Live)
-    (hR : ∀ t, x.tstate t = .ready → x.allocW t = [] ∧ x.allocF t = [])
-    (hWa : ∀ t, ∀ w ∈ x.allocW t, x.wstate w = .absence)
-    (hFa : ∀ t, ∀ f ∈ x.allocF t, x.fstate f = .absence) (ts : List Nat) :
-    ts.foldl (startOne m) x = setT (ts.foldl (startOne m) x).tstate x := by
-  have key : ∀ (acc : Live), (acc = setT acc.tstate x ∧ ∀ t, acc.tstate t = .ready → x.tstate t = .ready) →
-      ts.foldl (startOne m) acc = setT (ts.foldl (startOne m) acc).tstate x := by
-    induction ts with
-    | nil => intro acc h; exact h.1
-    | cons t ts ih =>
-      intro acc ⟨h1, h2⟩
-      rw [List.foldl_cons]
-      apply ih
-      have hq := startOne_quiet m acc t
-        (fun hr => by rw [h1]; exact hR t (h2 t hr))
-        (fun w hw => by rw [h1] at hw ⊢; exact hWa t w hw)
-        (fun f hf => by rw [h1] at hf ⊢; exact hFa t f hf)
-      rw [hq]
-      constructor
-      · conv => lhs; rw [h1]
-        rfl
-      · intro t' ht'
-        apply h2
-        have ht'' : (if acc.tstate t = .ready then upd acc.tstate t .working else acc.tstate) t' = .ready := ht'
-        split at ht''
-        · rw [upd_apply] at ht''
-          split at ht''
-          · cases ht''
-          · exact ht''
-        · exact ht''
-  exact key x ⟨rfl, fun _ h => h⟩
-
-theorem foldl_startOne_tstate_notin (m : Model) (ts : List Nat) (l : Live) (t : Nat) (h : t ∉ ts) :
-    (ts.foldl (startOne m) l).tstate t = l.tstate t := by
-  induction ts generalizing l with
-  | nil => rfl
-  | cons x xs ih =>
-    rw [List.foldl_cons, ih _ (fun hx => h (List.mem_cons_of_mem _ hx)),
-      startOne_tstate_ne m l x t (fun e => h (e ▸ List.mem_cons_self ..))]
-
-/-- the task states after `check_state(WORKING)` on a state whose READY tasks hold nothing -/
-theorem chkWorking_tstate_quiet (m : Model) (haf : AutoFree m) (x : Live)
-    (hR : ∀ t, x.tstate t = .ready → x.allocW t = [] ∧ x.allocF t = []) :
-    (chkWorking m x).tstate = startAuto m x.tstate := by
-  funext t
-  unfold startAuto
-  rw [Alloc.chkWorking_eq]
-  split
-  · rename_i h
-    obtain ⟨hlt, hr, hf⟩ := h
-    apply (Alloc.foldl_startOne_tstate m _ x).2 t _ (Or.inl hr)
-    exact List.mem_filter.mpr ⟨List.mem_range.mpr hlt, workingTarget_freeAuto m x t hr hf⟩
-  · rename_i h
-    by_cases hin : t ∈ (List.range m.nT).filter (workingTarget m x)
-    · rcases (Alloc.foldl_startOne_tstate m _ x).1 t with e | ⟨hr, _⟩
-      · exact e
-      · exfalso
-        obtain ⟨h1, h2⟩ := List.mem_filter.mp hin
-        have hlt := List.mem_range.mp h1
-        apply h
-        refine ⟨hlt, hr, ?_⟩
-        unfold workingTarget at h2
-        have hW := (hR t hr).1
-        simp only [hr, hW, List.length_nil, gt_iff_lt, Nat.lt_irrefl, decide_false, Bool.and_false,
-          Bool.false_or, beq_self_eq_true, Bool.true_and, Bool.or_false, Bool.or_eq_true,
-          Bool.and_eq_true] at h2
-        rcases h2 with h2 | h2
-        · unfold freeAuto; simp [h2.1, h2.2]
-        · unfold freeAuto; simp [h2.1, haf t hlt h2.1]
-    · exact foldl_startOne_tstate_notin m _ x t hin
+/-! ### an absence step of run A: auxiliary facts -/
 
 theorem perform_off (m : Model) (l : Live) : perform m false false l = l := by
   apply live_ext <;> try rfl
@@ -1553,12 +1434,13 @@ theorem rel_working (m : Model) (pA pB : Params) (hm : ModelOK m pA.rule) (hrule
   have gB := h.goodB.update b0.time
   have hle := taskLe_rel m pA.rule hm pA.absence a0 b0 h (updated m a0).logs (updated m b0).logs
   -- the live states at the cost / perform boundary and after the step
-  have hpre := preLive_working m hm.noInd hm.compNoAuto pA.rule (updated m a0).live (updated m b0).live
-    (updated m a0).logs (updated m b0).logs (updated m a0).time (updated m b0).time h.live gB.hold hle
+  have hpre := preLive_working m hm.noInd hm.compNoAuto pA.rule pA.autoFlag (updated m a0).live
+    (updated m b0).live (updated m a0).logs (updated m b0).logs (updated m a0).time (updated m b0).time
+    h.live hle
   have hlive : (stepBody m pA (updated m a0)).live =
       setP (updated m a0).live (stepBody m pB (updated m b0)).live := by
     rw [stepBody_live_eq, stepBody_live_eq, hwA, hwB, hrule, haf]
-    exact stepLive_working m hm.noInd hm.compNoAuto pA.rule pA.autoFlag _ _ _ _ _ _ h.live gB.hold hle
+    exact stepLive_working m hm.noInd hm.compNoAuto pA.rule pA.autoFlag _ _ _ _ _ _ h.live hle
   have hsteps : stepsBelow (a0.time + 1) pA.absence = stepsBelow a0.time pA.absence :=
     stepsBelow_succ_of_not_mem _ _ hw
   refine ⟨?_, ?_, ?_, ?_, ?_, ?_⟩
@@ -1569,9 +1451,9 @@ theorem rel_working (m : Model) (pA pB : Params) (hm : ModelOK m pA.rule) (hrule
   · show a0.time + 1 = b0.time + 1 + (stepsBelow (a0.time + 1) pA.absence).length
     rw [hsteps]; have := h.time; omega
   · show removeLogs m (stepsBelow (a0.time + 1) pA.absence) (stepBody m pA (updated m a0)).logs = _
-    rw [hsteps, stepBody_logs_eq, stepBody_logs_eq, hwA, hwB, hlive, hrule, hpre, addRow_setP]
+    rw [hsteps, stepBody_logs_eq, stepBody_logs_eq, hwA, hwB, hlive, hrule, haf, hpre, addRow_setP]
     have := removeLogs_addRow_keep m true
-      (preLive m (updated m b0).logs pA.rule (updated m b0).time true (updated m b0).live)
+      (preLive m (updated m b0).logs pA.rule pA.autoFlag (updated m b0).time true (updated m b0).live)
       (stepBody m pB (updated m b0)).live a0 h.alignA (stepsBelow a0.time pA.absence)
       (stepsBelow_pairwise _ _) (fun d hd => (mem_stepsBelow.1 hd).1)
     show removeLogs m _ (addRow m true _ _ a0.logs) = addRow m true _ _ b0.logs
@@ -1582,12 +1464,10 @@ theorem rel_working (m : Model) (pA pB : Params) (hm : ModelOK m pA.rule) (hrule
 
 /-! ### the loop -/
 
-theorem Ahead.allFinished {m : Model} {a b : Live} (h : Ahead m a.tstate b.tstate) :
+theorem allFinished_congr {m : Model} {a b : Live} (h : a.tstate = b.tstate) :
     allFinished m a = allFinished m b := by
   unfold PDesy.allFinished
-  congr 1
-  funext t
-  exact h.finished t
+  rw [h]
 
 /-- what the loop theorem needs from an absence step of run A: it leads to the relation with the
 *same* state of run B (`J` is any further invariant of run A that the step lemma wants) -/
@@ -1622,7 +1502,7 @@ theorem loop_rel (m : Model) (pA pB : Params) (hm : ModelOK m pA.rule) (hrule : 
     intro a0 b0 fuelB h hj hst hfuel hs
     obtain ⟨fB, rfl⟩ : ∃ k, fuelB = k + 1 := ⟨fuelB - 1, by have := fuelOf_pos pB b0; omega⟩
     have hfin : allFinished m (updated m a0).live = allFinished m (updated m b0).live :=
-      Ahead.allFinished h.live.ts
+      allFinished_congr h.live.ts
     rw [loop_succ] at hs ⊢
     by_cases hA : allFinished m (updated m a0).live = true
     · rw [if_pos hA]
@@ -1646,7 +1526,7 @@ theorem loop_rel (m : Model) (pA pB : Params) (hm : ModelOK m pA.rule) (hrule : 
           exact ih _ b0 (fB + 1) (habs a0 b0 h hj hc) (hJ a0 hj) hst hfuel hs
 
 theorem LRel.refl (m : Model) (l : Live) : LRel m l l :=
-  ⟨Ahead.refl m _, rfl, rfl, rfl, rfl, rfl, rfl, rfl, rfl, fun _ _ => rfl, fun _ _ => rfl⟩
+  ⟨rfl, rfl, rfl, rfl, rfl, rfl, rfl, rfl, rfl, fun _ _ => rfl, fun _ _ => rfl⟩
 
 theorem stepsBelow_zero (L : List Nat) : stepsBelow 0 L = [] := rfl
 
@@ -1719,8 +1599,7 @@ theorem removal_of_absStep (m : Model) (p : Params) (L : List Nat) (s : St)
   obtain ⟨h1, h2, h3⟩ := removeAbs_of_endRel m L _ _ hend hab hsucc
   exact ⟨h1, h2, h3, hend.status⟩
 
-/-! ## The absence step in the current model (depends on `check_state(WORKING)` running at
-project absence steps) -/
+/-! ## The absence step (flag off) -/
 
 /-- what `__update` leaves behind: nothing to finish, components, placements and READY states
 at their fixpoints -/
@@ -1737,106 +1616,28 @@ theorem updFix_update (m : Model) (time : Nat) (l : Live) : UpdFix m (update m t
     chkRemove_fix m (compCheck m (chkFinished m l)) _ (fun t => hn.finished t) rfl,
     chkReady_fix m (chkRemove m (compCheck m (chkFinished m l))) _ rfl⟩
 
-/-- no start-to-start / start-to-finish link leaves an automatic task (such a successor would
-see the task "started" at the absence step, one working step early: a kept finding) -/
-def NoStartLink (m : Model) : Prop :=
-  ∀ t, t < m.nT → ∀ e ∈ (m.task t).inputs, (e.2 = .ss ∨ e.2 = .sf) → (m.task e.1).isAuto = false
-
-theorem startAuto_of_not_auto (m : Model) (ts : Nat → TS) (t : Nat) (h : (m.task t).isAuto = false) :
-    startAuto m ts t = ts t := by
-  unfold startAuto
-  rw [if_neg]
-  intro hh
-  have := hh.2.2
-  simp [freeAuto, h] at this
-
-theorem startAuto_cases (m : Model) (ts : Nat → TS) (t : Nat) :
-    startAuto m ts t = ts t ∨
-      (t < m.nT ∧ freeAuto m t = true ∧ startAuto m ts t = .working ∧ ts t = .ready) := by
-  unfold startAuto
-  split
-  · rename_i h; exact Or.inr ⟨h.1, h.2.2, rfl, h.2.1⟩
-  · exact Or.inl rfl
-
-theorem startAuto_ahead (m : Model) (ts : Nat → TS) : Ahead m (startAuto m ts) ts :=
-  startAuto_cases m ts
-
-theorem all_congr_mem {α : Type} (f g : α → Bool) (xs : List α) (h : ∀ x ∈ xs, f x = g x) :
-    xs.all f = xs.all g := by
-  induction xs with
-  | nil => rfl
-  | cons x xs ih =>
-    simp only [List.all_cons]
-    rw [h x (List.mem_cons_self ..), ih (fun y hy => h y (List.mem_cons_of_mem _ hy))]
-
-theorem readyGate_startAuto (m : Model) (hn : NoStartLink m) (ts : Nat → TS) (t : Nat) (ht : t < m.nT) :
-    readyGate m (startAuto m ts) t = readyGate m ts t := by
-  unfold readyGate
-  apply all_congr_mem
-  intro e he
-  obtain ⟨p, d⟩ := e
-  cases d
-  · exact (startAuto_ahead m ts).finished p
-  · show (startAuto m ts p).started = (ts p).started
-    rw [startAuto_of_not_auto m ts p (hn t ht _ he (Or.inl rfl))]
-  · rfl
-  · rfl
-
-theorem finishGate_startAuto (m : Model) (hn : NoStartLink m) (ts : Nat → TS) (t : Nat) (ht : t < m.nT) :
-    finishGate m (startAuto m ts) t = finishGate m ts t := by
-  unfold finishGate
-  apply all_congr_mem
-  intro e he
-  obtain ⟨p, d⟩ := e
-  cases d
-  · rfl
-  · rfl
-  · exact (startAuto_ahead m ts).finished p
-  · show (startAuto m ts p).started = (ts p).started
-    rw [startAuto_of_not_auto m ts p (hn t ht _ he (Or.inr rfl))]
-
-/-- READY component-free automatic tasks still have work to do -/
-def AutoPos (m : Model) (l : Live) : Prop :=
-  ∀ t, t < m.nT → (m.task t).isAuto = true → (l.tstate t = .none ∨ l.tstate t = .ready) → 0 < l.rem t
-
-/-- **`__update` after an absence step finds nothing to do** (but the PERT data): on the
-state `x` = an updated state `a` with the READY component-free automatic tasks started and
-other resource states -/
-theorem upd0_quiet (m : Model) (hn : NoStartLink m) (hc : CompNoAuto m) (a x : Live) (hu : UpdFix m a)
-    (hp : AutoPos m a) (hts : x.tstate = startAuto m a.tstate) (hrem : x.rem = a.rem)
+/-- **`__update` after an absence step finds nothing to do** (but the PERT data): a state `x`
+with the task states, remaining work, component states and placements of an updated state `a`
+(whatever its resource states and allocation lists) is a fixpoint of every phase of `__update`
+before the PERT recomputation -/
+theorem upd0_same (m : Model) (a x : Live) (hu : UpdFix m a)
+    (hts : x.tstate = a.tstate) (hrem : x.rem = a.rem)
     (hcs : x.cstate = a.cstate) (hpl : x.placed = a.placed) : upd0 m x = x := by
-  have hah : Ahead m x.tstate a.tstate := by rw [hts]; exact startAuto_ahead m _
   have hcomp : compCheck m x = x :=
-    compCheck_quiet m a x hu.comp (fun c t ht => hah.of_not_auto t (hc c t ht)) hcs
+    compCheck_quiet m a x hu.comp (fun c t _ => by rw [hts]) hcs
   have h1 : chkFinished m x = x := by
     apply chkFinished_of_noCand
     intro t ht
     have h0 := hu.noCand t ht
-    rw [hts, finishGate_startAuto m hn _ t ht]
-    rcases startAuto_cases m a.tstate t with e | ⟨_, hf, e1, e2⟩
-    · have : finishCand x t = finishCand a t := by
-        unfold finishCand; rw [hts, hrem, e]
-      rw [this]; exact h0
-    · have hauto : (m.task t).isAuto = true := by
-        unfold freeAuto at hf; simp only [Bool.and_eq_true] at hf; exact hf.1
-      have hpos := hp t ht hauto (Or.inr e2)
-      have : finishCand x t = false := by
-        unfold finishCand
-        rw [hrem]
-        simp only [Bool.and_eq_false_iff, decide_eq_false_iff_not]
-        right
-        exact Rat.not_le.mpr hpos
-      rw [this]; rfl
+    have : finishCand x t = finishCand a t := by
+      unfold finishCand; rw [hts, hrem]
+    rw [this, hts]; exact h0
   have h3 : chkRemove m x = x := by
     apply chkRemove_of_none
     intro c hlt
     have e : removeCand m x c = removeCand m a c := by
       unfold removeCand
-      rw [hpl]
-      congr 2
-      apply all_congr_mem
-      intro t _
-      exact hah.finished t
+      rw [hpl, hts]
     rw [e]
     have hpc := chkRemove_placed m a c
     rw [hu.remove] at hpc
@@ -1853,13 +1654,9 @@ theorem upd0_quiet (m : Model) (hn : NoStartLink m) (hc : CompNoAuto m) (a x : L
       exfalso
       simp only [Bool.and_eq_true, beq_iff_eq, decide_eq_true_eq] at hcond
       obtain ⟨⟨hlt, h0⟩, hg⟩ := hcond
-      rw [hts, readyGate_startAuto m hn _ t hlt] at hg
-      have ha0 : a.tstate t = .none := by
-        have := hah.none t
-        rw [h0] at this
-        simpa using this.symm
+      rw [hts] at hg h0
       have hv := Lifecycle.chkReady_tstate m a t
-      rw [hu.ready, ha0] at hv
+      rw [hu.ready, h0] at hv
       split at hv
       · cases hv
       · rename_i hc'
@@ -1869,207 +1666,68 @@ theorem upd0_quiet (m : Model) (hn : NoStartLink m) (hc : CompNoAuto m) (a x : L
   unfold upd0
   rw [h1, hcomp, h3, h4, hcomp]
 
-theorem ready_holds_nothing {l : Live} (hh : HoldWorking l) (t : Nat) (hr : l.tstate t = .ready) :
-    l.allocW t = [] ∧ l.allocF t = [] := by
-  constructor
-  · apply Classical.byContradiction
-    intro hn
-    have := hh t (Or.inl hn)
-    rw [hr] at this; cases this
-  · apply Classical.byContradiction
-    intro hn
-    have := hh t (Or.inr hn)
-    rw [hr] at this; cases this
-
-/-- allocated resources are inside the index ranges -/
-theorem alloc_in_range {m : Model} {l : Live} (hinv : AllocInv m l) (hoc : OutClean m l) :
-    (∀ t w, w ∈ l.allocW t → w < m.nW) ∧ (∀ t f, f ∈ l.allocF t → f < m.nF) := by
-  constructor
-  · intro t w hw
-    apply Classical.byContradiction
-    intro hn
-    have h1 := (hinv.w_two t w).mp hw
-    rw [hoc.2.1 w (by omega)] at h1
-    cases h1
-  · intro t f hf
-    apply Classical.byContradiction
-    intro hn
-    have h1 := (hinv.f_two t f).mp hf
-    rw [hoc.2.2 f (by omega)] at h1
-    cases h1
-
-/-- **an absence step of run A, live state** (flag off): READY component-free automatic tasks
-are started, every resource in range is ABSENCE, nothing else changes -/
-theorem stepLive_absence (m : Model) (haf : AutoFree m) (hc : CompNoAuto m) (a : Live) (lg : Logs)
-    (rule : TaskRule) (τ : Nat) (hu : UpdFix m a) (hinv : AllocInv m a) (hh : HoldWorking a)
-    (hoc : OutClean m a) :
-    stepLive m lg rule false τ false a = setT (startAuto m a.tstate) (absenceSet m τ false a) := by
-  unfold stepLive preLive
-  simp only [Bool.false_eq_true, if_false]
+/-- **an absence step of run A, live state** (flag off): neither `allocate` nor
+`check_state(WORKING)` nor `perform` runs; every resource in range becomes ABSENCE and nothing
+else changes — from any state on which `product.check_state` has nothing to do -/
+theorem stepLive_absence (m : Model) (a : Live) (lg : Logs) (rule : TaskRule) (τ : Nat)
+    (hfix : compCheck m a = a) :
+    stepLive m lg rule false τ false a = absenceSet m τ false a := by
+  unfold stepLive preLive allocLive
+  simp only [Bool.false_eq_true, if_false, Bool.or_false]
   rw [perform_off]
-  obtain ⟨hrw, hrf⟩ := alloc_in_range hinv hoc
-  have hR : ∀ t, (absenceSet m τ false a).tstate t = .ready →
-      (absenceSet m τ false a).allocW t = [] ∧ (absenceSet m τ false a).allocF t = [] :=
-    fun t hr => ready_holds_nothing hh t hr
-  have hWa : ∀ t, ∀ w ∈ (absenceSet m τ false a).allocW t, (absenceSet m τ false a).wstate w = .absence := by
-    intro t w hw
-    have hlt : w < m.nW := hrw t w hw
-    simp [absenceSet, hlt]
-  have hFa : ∀ t, ∀ f ∈ (absenceSet m τ false a).allocF t, (absenceSet m τ false a).fstate f = .absence := by
-    intro t f hf
-    have hlt : f < m.nF := hrf t f hf
-    simp [absenceSet, hlt]
-  have e1 : chkWorking m (absenceSet m τ false a) =
-      setT (startAuto m a.tstate) (absenceSet m τ false a) := by
-    have := foldl_startOne_quiet m (absenceSet m τ false a) hR hWa hFa
-      ((List.range m.nT).filter (workingTarget m (absenceSet m τ false a)))
-    rw [← Alloc.chkWorking_eq, chkWorking_tstate_quiet m haf _ hR] at this
-    exact this
-  rw [e1]
-  exact compCheck_quiet m a _ hu.comp
-    (fun c t ht => startAuto_of_not_auto m a.tstate t (hc c t ht)) rfl
+  exact compCheck_quiet m a _ hfix (fun _ _ _ => rfl) rfl
 
-theorem LRel_absence (m : Model) (a b x : Live) (h : LRel m a b)
-    (hts : x.tstate = startAuto m a.tstate) (hrem : x.rem = a.rem) (hW : x.allocW = a.allocW)
-    (hF : x.allocF = a.allocF) (hwa : x.wasg = a.wasg) (hfa : x.fasg = a.fasg)
-    (hcs : x.cstate = a.cstate) (hpl : x.placed = a.placed) (hwp : x.wpComps = a.wpComps)
-    (hwo : ∀ w, ¬ w < m.nW → x.wstate w = a.wstate w) (hfo : ∀ f, ¬ f < m.nF → x.fstate f = a.fstate f) :
-    LRel m x b := by
-  refine ⟨?_, hrem.trans h.rem, hW.trans h.allocW, hF.trans h.allocF, hwa.trans h.wasg,
-    hfa.trans h.fasg, hcs.trans h.cstate, hpl.trans h.placed, hwp.trans h.wpComps,
-    fun w hw => (hwo w hw).trans (h.wout w hw), fun f hf => (hfo f hf).trans (h.fout f hf)⟩
-  intro t
-  rw [hts]
-  rcases startAuto_cases m a.tstate t with e | ⟨hlt, hf, e1, e2⟩
-  · rw [e]; exact h.ts t
-  · rcases h.ts t with e' | ⟨_, _, e3, _⟩
-    · exact Or.inr ⟨hlt, hf, e1, by rw [← e']; exact e2⟩
-    · rw [e2] at e3; cases e3
-
-/-! ### the invariants of run A that the absence step needs -/
-
-theorem AutoPos_update (m : Model) (time : Nat) (l : Live) (h : AutoPos m l) :
-    AutoPos m (update m time l) := by
-  intro t ht ha hs
-  have hmono := Lifecycle.update_mono m time l t
-  have hnf : (update m time l).tstate t ≠ .finished := by
-    rcases hs with e | e <;> rw [e] <;> intro hh <;> cases hh
-  rw [Perform.update_rem_eq, if_neg (fun hh => hnf hh.1)]
-  apply h t ht ha
-  rcases hs with e | e
-  · rw [e] at hmono
-    left
-    cases hl : l.tstate t <;> simp [hl, TS.rank] at hmono ⊢
-  · rw [e] at hmono
-    cases hl : l.tstate t <;> simp [hl, TS.rank] at hmono ⊢
-
-theorem AutoPos_stepBody (m : Model) (p : Params) (s : St) (h : AutoPos m s.live) :
-    AutoPos m (stepBody m p s).live := by
-  intro t ht ha hs
-  have hmono := Lifecycle.stepBody_mono m p s t
-  have hnw : (Perform.preCost m p s).tstate t ≠ .working := by
-    rw [← Perform.stepBody_tstate]
-    rcases hs with e | e <;> rw [e] <;> intro hh <;> cases hh
-  rw [Perform.stepBody_rem, if_neg (fun hh => hnw hh.2.1)]
-  apply h t ht ha
-  rcases hs with e | e
-  · rw [e] at hmono
-    left
-    cases hl : s.live.tstate t <;> simp [hl, TS.rank] at hmono ⊢
-  · rw [e] at hmono
-    cases hl : s.live.tstate t <;> simp [hl, TS.rank] at hmono ⊢
-
-/-- the further side conditions on the model that the absence step of the current model needs -/
-structure ModelOKA (m : Model) : Prop where
-  autoFree : AutoFree m
-  noStart : NoStartLink m
-  facs : FacsInRange m
-  autoPos : ∀ t, t < m.nT → (m.task t).isAuto = true → 0 < (m.task t).work * (1 - (m.task t).prog)
-
-/-- the further invariant of run A -/
-def JA (m : Model) (a0 : St) : Prop := Good m a0.live ∧ OutClean m a0.live ∧ AutoPos m a0.live
-
-theorem JA_step (m : Model) (hA : ModelOKA m) (pA : Params) (a0 : St) (h : JA m a0) :
-    JA m (stepBody m pA (updated m a0)) := by
-  obtain ⟨g, oc, ap⟩ := h
-  have gu := g.update a0.time
-  exact ⟨Good.stepBody pA (s := updated m a0) gu,
-    stepBody_OutClean pA (s := updated m a0) hA.facs gu.inv (update_OutClean a0.time g.inv oc),
-    AutoPos_stepBody m pA (updated m a0) (AutoPos_update m a0.time a0.live ap)⟩
-
-theorem JA_enter (m : Model) (hA : ModelOKA m) (hw : WorkOK m) (p : Params) (s : St)
-    (hs : p.initState = true) : JA m (enter m p s) := by
-  obtain ⟨h1, h2, h3, h4⟩ := Alloc.enter_live_empty (m := m) (p := p) (s := s) hs
-  obtain ⟨i1, i2⟩ := AllocInv_of_empty (m := m) h1 h2 h3 h4
-  refine ⟨⟨i1, i2, RemOK_enter m hw p s hs⟩, ⟨fun t _ => ⟨h1 t, h2 t⟩, fun w _ => h3 w, fun f _ => h4 f⟩, ?_⟩
-  intro t ht ha _
-  rw [Lifecycle.enter_live, hs, Perform.initProject_rem _ _ _ ht]
-  exact hA.autoPos t ht ha
-
-/-- **an absence step of run A leads to the relation with the same state of run B**
-(current model: `check_state(WORKING)` runs at the absence step and starts the READY
-component-free automatic tasks; with the flag off nothing else happens) -/
-theorem rel_absence (m : Model) (pA : Params) (hm : ModelOK m pA.rule) (hA : ModelOKA m)
-    (hflag : pA.autoFlag = false) : AbsStepOK m pA (JA m) := by
-  intro a0 b0 h hj hc
-  obtain ⟨g, oc, ap⟩ := hj
-  have gu := g.update a0.time
+/-- **an absence step of run A leads to the relation with the same state of run B** (flag
+off): the live state is the updated one with all resources in range ABSENCE, the next
+`__update` changes nothing but the PERT data, and the appended rows are the ones `removeLogs`
+drops.  No condition on the model, no further invariant of run A. -/
+theorem rel_absence (m : Model) (pA : Params) (hflag : pA.autoFlag = false) :
+    AbsStepOK m pA (fun _ => True) := by
+  intro a0 b0 h _ hc
+  have gu := h.goodA.update a0.time
   have hu : UpdFix m (updated m a0).live := updFix_update m a0.time a0.live
   have hwk : (!(pA.absence.contains (updated m a0).time)) = false := by
     show (!(pA.absence.contains a0.time)) = false
     rw [hc]; rfl
   have hlive : (stepBody m pA (updated m a0)).live =
-      setT (startAuto m (updated m a0).live.tstate) (absenceSet m a0.time false (updated m a0).live) := by
+      absenceSet m a0.time false (updated m a0).live := by
     rw [stepBody_live_eq, hwk, hflag]
-    exact stepLive_absence m hA.autoFree hm.compNoAuto _ _ _ _ hu gu.inv gu.hold
-      (update_OutClean a0.time g.inv oc)
+    exact stepLive_absence m _ _ _ _ hu.comp
   have hq : upd0 m (stepBody m pA (updated m a0)).live = (stepBody m pA (updated m a0)).live := by
     rw [hlive]
-    exact upd0_quiet m hA.noStart hm.compNoAuto (updated m a0).live _ hu
-      (AutoPos_update m a0.time a0.live ap) rfl rfl rfl rfl
+    exact upd0_same m (updated m a0).live _ hu rfl rfl rfl rfl
   have hsteps : stepsBelow (a0.time + 1) pA.absence = stepsBelow a0.time pA.absence ++ [a0.time] :=
     stepsBelow_succ_of_mem _ _ hc
   refine ⟨?_, ?_, ?_, ?_, ?_, h.goodB⟩
   · show LRel m (update m (a0.time + 1) (stepBody m pA (updated m a0)).live) _
-    rw [update_eq, hq]
-    apply LRel_absence m (updated m a0).live _ _ h.live
-    · show (stepBody m pA (updated m a0)).live.tstate = _
-      rw [hlive]; rfl
-    all_goals first
-      | (show (stepBody m pA (updated m a0)).live.rem = _; rw [hlive]; rfl)
-      | (show (stepBody m pA (updated m a0)).live.allocW = _; rw [hlive]; rfl)
-      | (show (stepBody m pA (updated m a0)).live.allocF = _; rw [hlive]; rfl)
-      | (show (stepBody m pA (updated m a0)).live.wasg = _; rw [hlive]; rfl)
-      | (show (stepBody m pA (updated m a0)).live.fasg = _; rw [hlive]; rfl)
-      | (show (stepBody m pA (updated m a0)).live.cstate = _; rw [hlive]; rfl)
-      | (show (stepBody m pA (updated m a0)).live.placed = _; rw [hlive]; rfl)
-      | (show (stepBody m pA (updated m a0)).live.wpComps = _; rw [hlive]; rfl)
-      | (intro w hw
-         show (stepBody m pA (updated m a0)).live.wstate w = _
-         rw [hlive]
-         show (absenceSet m a0.time false (updated m a0).live).wstate w = _
-         simp [absenceSet, hw])
-      | (intro f hf
-         show (stepBody m pA (updated m a0)).live.fstate f = _
-         rw [hlive]
-         show (absenceSet m a0.time false (updated m a0).live).fstate f = _
-         simp [absenceSet, hf])
+    rw [update_eq, hq, hlive]
+    have hl := h.live
+    refine ⟨hl.ts, hl.rem, hl.allocW, hl.allocF, hl.wasg, hl.fasg, hl.cstate, hl.placed,
+      hl.wpComps, ?_, ?_⟩
+    · intro w hw
+      refine Eq.trans ?_ (hl.wout w hw)
+      show (absenceSet m a0.time false (updated m a0).live).wstate w = _
+      simp [absenceSet, hw]; rfl
+    · intro f hf
+      refine Eq.trans ?_ (hl.fout f hf)
+      show (absenceSet m a0.time false (updated m a0).live).fstate f = _
+      simp [absenceSet, hf]; rfl
   · show a0.time + 1 = b0.time + (stepsBelow (a0.time + 1) pA.absence).length
     rw [hsteps, List.length_append, List.length_singleton]
     have := h.time; omega
   · show removeLogs m (stepsBelow (a0.time + 1) pA.absence) (stepBody m pA (updated m a0)).logs = _
     rw [hsteps, stepBody_logs_eq]
     have := removeLogs_addRow_drop m (!(pA.absence.contains (updated m a0).time))
-      (preLive m (updated m a0).logs pA.rule (updated m a0).time
+      (preLive m (updated m a0).logs pA.rule pA.autoFlag (updated m a0).time
         (!(pA.absence.contains (updated m a0).time)) (updated m a0).live)
       (stepBody m pA (updated m a0)).live a0 h.alignA (stepsBelow a0.time pA.absence)
     exact this.trans h.logs
   · exact C08_aligned_step _ (C08_aligned_updated _ h.alignA)
   · exact Good.stepBody pA (s := updated m a0) gu
 
-/-- **C10, clause 3, current model** (see `PDesy/Props/C10Removal.lean`) -/
-theorem removal_current (m : Model) (p : Params) (L : List Nat) (s : St)
-    (hm : ModelOK m p.rule) (hA : ModelOKA m) (hw : WorkOK m) (hs : p.initState = true)
+/-- **C10, clause 3** (see `PDesy/Props/C10Removal.lean`) -/
+theorem removal (m : Model) (p : Params) (L : List Nat) (s : St)
+    (hm : ModelOK m p.rule) (hw : WorkOK m) (hs : p.initState = true)
     (hl : p.initLog = true) (hflag : p.autoFlag = false)
     (hsucc : (simulate m { p with absence := L } s).status = .success) :
     (removeAbs m (simulate m { p with absence := L } s)).logs = (simulate m { p with absence := [] } s).logs ∧
@@ -2077,10 +1735,8 @@ theorem removal_current (m : Model) (p : Params) (L : List Nat) (s : St)
     (removeAbs m (simulate m { p with absence := L } s)).status =
       (simulate m { p with absence := [] } s).status ∧
     (simulate m { p with absence := [] } s).status = .success :=
-  removal_of_absStep m p L s hm hw hs hl (JA m)
-    (JA_enter m hA hw { p with absence := L } s hs)
-    (fun a0 h => JA_step m hA { p with absence := L } a0 h)
-    (rel_absence m { p with absence := L } hm hA hflag) hsucc
+  removal_of_absStep m p L s hm hw hs hl (fun _ => True) trivial (fun _ _ => trivial)
+    (rel_absence m { p with absence := L } hflag) hsucc
 
 end Removal
 end PDesy
